@@ -211,7 +211,7 @@ def run_property(prop, tier="quick", seed=0, repo=None, write_evidence=True, qui
             },
             "exhaustive": True,
             "checker_cmd": "./vcheck %s --tier %s" % (prop, tier),
-            "trusted_base": ["rustc MIR construction and type resolution (nightly)", "dependency crates behave as documented (tables/api_contracts.json)", "linux/x86-64 cfg only"],
+            "trusted_base": ["rustc MIR construction and type resolution (nightly)", "dependency crates behave as their pinned source says (contracts W1-W4, O1-O3, K1, S1, S2, A1, C1 cited in the rules and listed in DESIGN.md section A)", "linux/x86-64 cfg only"],
             "notes": ctx.notes,
             "stale_known_findings": [k["key"] for k in stale],
         },
